@@ -19,6 +19,9 @@ CONSTANTS
  LoopChecksFlag = FALSE
  AssertLine = FALSE
  CapOrder <- GCap
+ SlotOf <- GSlot
+ TagCheck = TRUE
+ TinyTable = FALSE
  StopAllowed = TRUE
 INIT MCInit
 NEXT Next
